@@ -1,5 +1,5 @@
 """C01 - Compiled programs behave as DDP's evaluation rules prescribe.   DESIGN.md §4 C01"""
-import vlib, ddp, semrun, semgen
+import vlib, ddp, semrun, semgen, corpus
 from vlib import Check
 
 
@@ -26,6 +26,11 @@ def run(tier):
     ck.cov["programs"] += r2["n_progs"]
     for k, stage, msg, src in (r["compile_failed"] + r2["compile_failed"])[:3]:
         vlib.log("NOT COMPILED:", k, stage, msg[-300:])
+    # the repository's own programs: the tree the REAL parser built, exported by astx, evaluated by DDPSem, against the executable of the original source
+    cc = corpus.check_semantics(ck, (1,) if tier == "quick" else (0, 1, 2), "corpus", subset=("kddp" if tier == "quick" else "all"))
+    ck.cov["corpus"] = cc
+    ck.cov["evaluations"] += cc["validated_observations"]
+    ck.cov["traces_validated_against_impl"] += cc["validated_observations"]
     ck.sample(dict(case=cases[0].key, source_excerpt=ddp.render(semgen.batch_program(cases[:1], "s"))[-400:]))
     ck.cov["rule"] = "operator table: every operator x admissible operand types x boundary values (each case distinct by key); quick: seeded half of the numeric tables; statements, compound assignments, alternative spellings, copy / aliasing arrangements, producing shape x consuming context matrix at -O1/-O2"
     return ck.finish(exhaustive=(tier == "thorough"))
